@@ -466,6 +466,96 @@ func c15Ladder(c *Ctx) {
 			r.OK("O-1", load.FuncKey(t)+"#may-fail", c.P.Pos(t.Pos()), "may fail ("+why+"); not relied upon")
 		}
 	}
+	// table order: every strategy tried before the first one that cannot fail
+	// must not be able to hand back an empty database with a nil error
+	ordered := map[int64]*ssa.Function{}
+	ssau.ForEachInstr(fn, false, func(in ssa.Instruction) {
+		st, ok := in.(*ssa.Store)
+		if !ok {
+			return
+		}
+		// either &arr[i].fn = f, or arr[i] = *tmp with tmp.fn = f
+		var ia *ssa.IndexAddr
+		var fval ssa.Value
+		if fa, ok := st.Addr.(*ssa.FieldAddr); ok {
+			if x, ok := fa.X.(*ssa.IndexAddr); ok {
+				ia, fval = x, st.Val
+			}
+		} else if x, ok := st.Addr.(*ssa.IndexAddr); ok {
+			if u, ok := st.Val.(*ssa.UnOp); ok {
+				if tmp, ok := u.X.(*ssa.Alloc); ok {
+					for _, ref := range *tmp.Referrers() {
+						if fa, ok := ref.(*ssa.FieldAddr); ok {
+							for _, r2 := range *fa.Referrers() {
+								if s2, ok := r2.(*ssa.Store); ok && s2.Addr == ssa.Value(fa) {
+									if _, isSig := s2.Val.Type().Underlying().(*types.Signature); isSig {
+										ia, fval = x, s2.Val
+									}
+								}
+							}
+						}
+					}
+				}
+			}
+		}
+		if ia == nil || fval == nil {
+			return
+		}
+		idx, ok := ssau.ConstInt(ia.Index)
+		if !ok {
+			return
+		}
+		if _, isSig := fval.Type().Underlying().(*types.Signature); !isSig {
+			return
+		}
+		var f0 *ssa.Function
+		switch v := fval.(type) {
+		case *ssa.MakeClosure:
+			f0, _ = v.Fn.(*ssa.Function)
+		case *ssa.Function:
+			f0 = v
+		}
+		if f0 == nil {
+			return
+		}
+		// look through wrappers
+		for d := 0; d < 3; d++ {
+			if f0.Synthetic != "" || (f0.Parent() != nil && len(f0.Blocks) == 1) {
+				var inner *ssa.Function
+				n := 0
+				ssau.ForEachInstr(f0, false, func(in ssa.Instruction) {
+					if cl, ok := in.(*ssa.Call); ok {
+						if cal := cl.Common().StaticCallee(); cal != nil && c.P.IsRepoFunc(cal) {
+							inner = cal
+							n++
+						}
+					}
+				})
+				if n == 1 && inner != nil {
+					f0 = inner
+					continue
+				}
+			}
+			break
+		}
+		ordered[idx] = f0
+	})
+	if len(ordered) == len(targets) && len(ordered) > 0 {
+		firstTotal := int64(-1)
+		for i := int64(0); i < int64(len(ordered)); i++ {
+			if ok, _ := totalStrategy(ordered[i]); ok {
+				firstTotal = i
+				break
+			}
+		}
+		var early []string
+		for i := int64(0); i < firstTotal; i++ {
+			early = append(early, load.FuncKey(ordered[i]))
+		}
+		r.Check(len(early) == 0, "O-1", fk+"#nothing-fallible-before-the-total-strategy", c.P.Pos(call.Pos()), "the first strategy tried cannot fail and yields a non-empty built-in database", "strategies tried before the first one that cannot fail may return an empty database with a nil error (e.g. an empty backup file loads as zero commands): "+strings.Join(early, ", "))
+	} else {
+		r.Unknown("O-1", fk+"#nothing-fallible-before-the-total-strategy", c.P.Pos(call.Pos()), fmt.Sprintf("table order not resolved (%d ordered entries, %d callees)", len(ordered), len(targets)))
+	}
 	r.Check(nTotal >= 1, "O-1", fk+"#some-strategy-cannot-fail", c.P.Pos(call.Pos()), fmt.Sprintf("%d of %d strategies cannot fail", nTotal, len(targets)), "no fallback strategy is guaranteed to return a non-empty database with a nil error: with all files broken the search has no database")
 	// first success is returned with nil
 	ev := errValue(call)
@@ -738,35 +828,86 @@ func c15Delay(c *Ctx, sx *symx.Ctx) {
 		return
 	}
 	f := sx.Of(fn)
-	for i, ret := range ssau.ReturnsOf(fn) {
-		key := fmt.Sprintf("%s#return-%d-clamped", fk, i+1)
-		v := ssau.ResultValue(ret, 0)
-		if cv, ok := v.(*ssa.Convert); ok {
-			v = cv.X
-		}
-		phi, ok := v.(*ssa.Phi)
-		if !ok || len(phi.Edges) != 2 {
-			r.Bad("O-4", key, c.P.Pos(ret.Pos()), "the returned delay is not the result of a clamp (if d > Max { d = Max }): "+f.Plain(v))
-			continue
-		}
-		good := false
-		for i, e := range phi.Edges {
-			other := phi.Edges[1-i]
-			// e is the cap: float64(MaxDelay); other flows on the false edge of other > cap
-			if !strings.Contains(f.Plain(e), "retryConfig.MaxDelay") {
+	stripConv := func(v ssa.Value) ssa.Value {
+		for {
+			if cv, ok := v.(*ssa.Convert); ok {
+				v = cv.X
 				continue
 			}
-			pred := phi.Block().Preds[1-i]
-			if iff, ok := pred.Instrs[len(pred.Instrs)-1].(*ssa.If); ok {
-				op, x, y, okc := ssau.CondOf(iff.Cond)
-				if okc && ((op == token.GTR && x == other && f.E(y) == f.E(e) && pred.Succs[1] == phi.Block()) ||
-					(op == token.LSS && y == other && f.E(x) == f.E(e) && pred.Succs[1] == phi.Block()) ||
-					(op == token.LEQ && x == other && f.E(y) == f.E(e) && pred.Succs[0] == phi.Block())) {
-					good = true
+			if ct, ok := v.(*ssa.ChangeType); ok {
+				v = ct.X
+				continue
+			}
+			return v
+		}
+	}
+	isCap := func(v ssa.Value) bool {
+		_, ok := ssau.IsFieldLoad(stripConv(v), recPkg+".RetryConfig", "MaxDelay")
+		return ok
+	}
+	isFloat := func(v ssa.Value) bool {
+		b, ok := v.Type().Underlying().(*types.Basic)
+		return ok && b.Info()&types.IsFloat != 0
+	}
+	// value e arriving along pred->blk (pred nil: at the start of blk) is <= cap
+	var bounded func(e ssa.Value, pred, blk *ssa.BasicBlock, depth int) (bool, string)
+	bounded = func(e ssa.Value, pred, blk *ssa.BasicBlock, depth int) (bool, string) {
+		if isCap(e) {
+			return true, ""
+		}
+		u := stripConv(e)
+		if phi, ok := u.(*ssa.Phi); ok && depth < 4 {
+			for i, ed := range phi.Edges {
+				if ok, why := bounded(ed, phi.Block().Preds[i], phi.Block(), depth+1); !ok {
+					return false, why
 				}
 			}
+			return true, ""
 		}
-		r.Check(good, "O-4", key, c.P.Pos(ret.Pos()), "delay = min(BaseDelay*Factor^(attempt-1), MaxDelay)", "the returned delay is not clamped by MaxDelay on every path: "+f.Plain(v))
+		if !isFloat(u) {
+			return false, "the delay is compared or clamped after conversion to an integer duration (" + f.Plain(u) + "): the float product can overflow int64 first"
+		}
+		// edges establishing u <= float64(MaxDelay)
+		cut := map[[2]int]bool{}
+		for _, iff := range ssau.Ifs(fn) {
+			op, x, y, ok := ssau.CondOf(iff.Cond)
+			if !ok {
+				continue
+			}
+			if y == u {
+				x, y, op = y, x, ssau.Flip(op)
+			}
+			if x != u || !isCap(y) || !isFloat(y) {
+				continue
+			}
+			switch op {
+			case token.GTR, token.GEQ:
+				cut[[2]int{iff.Block().Index, 1}] = true
+			case token.LEQ, token.LSS:
+				cut[[2]int{iff.Block().Index, 0}] = true
+			}
+		}
+		if len(cut) == 0 {
+			return false, "no comparison of " + f.Plain(u) + " with float64(MaxDelay) bounds the returned delay"
+		}
+		at := blk
+		if pred != nil {
+			for k, sc := range pred.Succs {
+				if sc == blk && cut[[2]int{pred.Index, k}] {
+					return true, ""
+				}
+			}
+			at = pred
+		}
+		if ssau.ReachableAvoidingEdges(fn, at, cut) {
+			return false, "some path returns " + f.Plain(u) + " without having established it is <= MaxDelay"
+		}
+		return true, ""
+	}
+	for i, ret := range ssau.ReturnsOf(fn) {
+		key := fmt.Sprintf("%s#return-%d-clamped", fk, i+1)
+		ok, why := bounded(ssau.ResultValue(ret, 0), nil, ret.Block(), 0)
+		r.Check(ok, "O-4", key, c.P.Pos(ret.Pos()), "the returned delay is the cap or a float term established <= float64(MaxDelay)", "the returned delay is not clamped by MaxDelay on every path: "+why)
 	}
 }
 
